@@ -522,11 +522,94 @@ def _via_copy(name, way):
     return run
 
 
+def _degenerate_arrays():
+    """degenerate DATA for every tool: long runs of repeated values around the target rank, all-equal data, data on the
+    bounds, huge n, a single record, and EMPTY inputs"""
+    rs = np.random.RandomState(81)
+    low, high = np.linspace(0.001, 0.1, 100), np.linspace(0.9, 0.999, 100)
+    return [
+        ("long-run", np.concatenate([low, np.full(4000, 0.5), high]), {}),
+        ("long-run-2", np.concatenate([np.full(3000, 0.2), np.full(3000, 0.8), [0.5]]), {}),
+        ("all-equal", np.full(300, 0.5), {}),
+        ("on-bounds", np.concatenate([np.zeros(150), np.ones(150)]), {}),
+        ("all-zero-2d", np.zeros((40, 3)), {"axis": 0}),
+        ("single", np.array([0.3]), {}),
+        ("huge-n", rs.uniform(0, 1, 200000), {}),
+        ("empty", np.array([]), {}),
+        ("empty-0xd", np.zeros((0, 3)), {"axis": 0}),
+        ("empty-nx0", np.zeros((5, 0)), {"axis": 0}),
+        ("empty-nx0-axis1", np.zeros((5, 0)), {"axis": 1}),
+    ]
+
+
+def _tool_on(tname, arr, kw, rs):
+    a = acc()
+    if tname == "count_nonzero":
+        return T.count_nonzero(arr > 0.4, epsilon=1.0, random_state=rs, accountant=a, **kw)
+    if tname == "histogram":
+        return T.histogram(np.ravel(arr), epsilon=1.0, bins=5, range=(0.0, 1.0), random_state=rs, accountant=a)[0]
+    if tname == "histogramdd":
+        smp = arr if arr.ndim == 2 and arr.shape[1] else np.c_[np.ravel(arr), np.ravel(arr)]
+        return T.histogramdd(smp, epsilon=1.0, bins=3, range=[(0.0, 1.0)] * smp.shape[1], random_state=rs, accountant=a)[0]
+    if tname == "histogram2d":
+        return T.histogram2d(np.ravel(arr), np.ravel(arr), epsilon=1.0, bins=3, range=[(0.0, 1.0)] * 2, random_state=rs,
+                             accountant=a)[0]
+    if tname == "quantile":
+        return T.quantile(arr, 0.5, epsilon=1.0, bounds=(0.0, 1.0), random_state=rs, accountant=a, **kw)
+    if tname == "quantile[0.01]":
+        return T.quantile(arr, 0.01, epsilon=1.0, bounds=(0.0, 1.0), random_state=rs, accountant=a, **kw)
+    if tname == "percentile":
+        return T.percentile(arr, 50, epsilon=1.0, bounds=(0.0, 1.0), random_state=rs, accountant=a, **kw)
+    return getattr(T, tname)(arr, epsilon=1.0, bounds=(0.0, 1.0), random_state=rs, accountant=a, **kw)
+
+
+def _degenerate_entries():
+    out = []
+    tools = ["count_nonzero", "mean", "nanmean", "var", "nanvar", "std", "nanstd", "sum", "nansum", "histogram",
+             "histogramdd", "histogram2d", "quantile", "quantile[0.01]", "percentile", "median"]
+    for dname, arr, kw in _degenerate_arrays():
+        for t in tools:
+            if kw and t in ("histogram", "histogramdd", "histogram2d"):
+                kw_ = {}
+            else:
+                kw_ = kw
+            run = (lambda t_, a_, k_: lambda rs: disc(all=np.ravel(np.asarray(_tool_on(t_, a_, k_, rs), dtype=float))))(t, arr, kw_)
+            out.append((t.split("[")[0], f"degenerate:{dname}" + (t[t.index("["):] if "[" in t else ""), run, "tool"))
+    # estimators on degenerate data (released attributes are not compared: the interposition and the state checks decide)
+    xs = [("all-zero", np.zeros((50, 3)), None), ("all-equal", np.full((50, 3), 0.3), None),
+          ("single", np.full((1, 3), 0.2), None), ("empty-0xd", np.zeros((0, 3)), None), ("empty-nx0", np.zeros((5, 0)), None),
+          ("corners", np.sign(np.random.RandomState(3).uniform(-1, 1, (60, 3))) / np.sqrt(3), None),
+          ("one-class", np.random.RandomState(4).uniform(-0.5, 0.5, (60, 3)), "zeros")]
+    for name, parts in MODEL_PARTS.items():
+        _v, mk, _out = parts[0]
+        for dname, X, ykind in xs:
+            def run(rs, mk=mk, X=X, ykind=ykind, name=name):
+                e = mk(rs)
+                n = X.shape[0]
+                y = np.zeros(n, dtype=int) if ykind == "zeros" else np.arange(n) % 3
+                if name in ("KMeans", "StandardScaler", "PCA"):
+                    e.fit(X)
+                elif name == "LinearRegression":
+                    e.fit(X, np.zeros(n) if X.shape[1] == 0 else np.clip(X.sum(axis=1), -1, 1))
+                else:
+                    e.fit(X, y)
+                return {"scalars": [], "groups": {}}
+            out.append((name, f"degenerate:{dname}", run, "model"))
+    from diffprivlib.models.utils import covariance_eig
+    for dname, X, _ in xs[:5]:
+        for nrm in (None, 1.5):
+            out.append(("covariance_eig", f"degenerate:{dname},norm={nrm}",
+                        (lambda X_, n_: lambda rs: (covariance_eig(X_, epsilon=2.0, norm=n_, random_state=rs),
+                                                    {"scalars": [], "groups": {}})[1])(X, nrm), "model"))
+    return out
+
+
 def all_entries():
     """(entry, variant, runner, group)"""
     out = [(n, "direct", f, "mechanism") for n, f in MECHS.items()]
     out += [(n, w, _via_copy(n, w), "mechanism") for n in MECH_PARTS for w in COPY_WAYS]
     out += [(n, v, (lambda mk, dr: (lambda rs: dr(mk(rs))))(mk, dr), "mechanism") for n, v, mk, dr in MECH_EXTRA]
+    out += _degenerate_entries()
     for n, vs in TOOLS.items():
         out += [(n, v, f, "tool") for v, f in vs]
     for n, vs in MODELS.items():
@@ -705,6 +788,8 @@ def correspondence(ctx):
             for (_, v, runner, group) in variants:
                 if ("|seq:" in v or v.startswith("big:")) and k not in ("none", "int"):
                     continue
+                if v.startswith("degenerate:") and k != "none":
+                    continue
                 want = model_sites(plan[(n, kind_for(v))])
                 want_err = bool(want) and all(w.endswith(":error") for w in want)
                 r = observe(runner, k)
@@ -728,6 +813,10 @@ def correspondence(ctx):
                                           f"{n} [{v}] with random_state=None constructed a {mech} whose _rng is "
                                           f"{src} (not secrets.SystemRandom)",
                                           {"kind": "rng-class", "entry": n, "variant": v})
+                if v.startswith("degenerate:") and r[0] in ("crash", "error"):
+                    ctx.count("degenerate_refusals")      # a call that raises releases nothing: a refusal
+                    ctx.trace_ok()
+                    continue
                 if r[0] == "crash":
                     ctx.disagree("rng-provenance", inp, "returns" if not want_err else "raises ValueError/TypeError",
                                  "raised " + r[1], note="unexpected exception from the library")
@@ -934,8 +1023,11 @@ def blackbox(ctx):
     saved = np.random.get_state(), random.getstate()
     try:
         for (entry, variant, runner, group) in all_entries():
-            for s in (seeds[:2] if variant.startswith("big:") else seeds):
+            deg = variant.startswith("degenerate:")
+            for s in (seeds[:1] if deg else seeds[:2] if variant.startswith("big:") else seeds):
                 fails, n, crash = blackbox_one(entry, variant, runner, group, s)
+                if deg and crash:
+                    crash = None          # degenerate data: a call that raises is a refusal, nothing was released
                 ctx.case(("bb", entry, variant, s) if n else None)
                 data = {"kind": "blackbox", "entry": entry, "variant": variant, "global_seed": s}
                 if crash:
